@@ -90,6 +90,8 @@ func (c *replacerCompiler) compile(v reflect.Value) Replacer {
 		})
 	case goast.ForStmtPtrType:
 		return c.compileForStmt(v)
+	case goast.FuncTypePtrType:
+		return funcTypeReplacer{Replacer: c.compileGeneric(v)}
 	case goast.CommentGroupPtrType:
 		// TODO: We're currently ignoring comments in the replacement patch.
 		// We should probably record them and report them in the top-level
@@ -109,6 +111,26 @@ func (c *replacerCompiler) compile(v reflect.Value) Replacer {
 	}
 
 	return c.compileGeneric(v)
+}
+
+// funcTypeReplacer reproduces a function signature.
+//
+// A result list that an elision left without any element is written out as
+// no result list at all. The generated node says the same, so that later
+// changes see what they would see if the file was read again.
+type funcTypeReplacer struct{ Replacer }
+
+func (r funcTypeReplacer) Replace(d data.Data, cl Changelog, pos token.Pos) (reflect.Value, error) {
+	v, err := r.Replacer.Replace(d, cl, pos)
+	if err != nil {
+		return v, err
+	}
+	if ft, ok := v.Interface().(*ast.FuncType); ok && ft != nil {
+		if ft.Results != nil && len(ft.Results.List) == 0 {
+			ft.Results = nil
+		}
+	}
+	return v, nil
 }
 
 // ZeroReplacer replaces with a zero value.
